@@ -3510,6 +3510,7 @@ impl Server {
             ("SWEEP", "GATE") => { ev::SWEEP_GATE.store(1, Ordering::SeqCst); Ok(RespFrame::ok()) }
             ("SWEEP", "RELEASE") => { ev::SWEEP_GATE.store(0, Ordering::SeqCst); Ok(RespFrame::ok()) }
             ("SWEEP", "ATGATE") => Ok(int(ev::SWEEP_AT_GATE.load(Ordering::SeqCst) as i64)),
+            ("SWEEP", "WAITING") => Ok(int(ev::SWEEP_WAITING.load(Ordering::SeqCst) as i64)),
             ("SWEEP", "PASSES") => Ok(int(ev::SWEEP_PASSES.load(Ordering::SeqCst) as i64)),
             ("ITER", _) => Ok(int(VERIF_LOOP_ITERATIONS.load(Ordering::SeqCst) as i64)),
             ("INDEX", _) => {
